@@ -284,6 +284,10 @@ func runC13(r *Run, p *Prog) {
 				notReg, notRun := guards(T.FactsAt(b))
 				r.Ob("M2", shortName(reg), "update of "+fld+" only if the name is not registered and the service is not running", in.Pos(), notReg && notRun,
 					fmt.Sprintf("not-registered known: %v, not-running known: %v - a refused registration must leave the service unchanged", notReg, notRun))
+				// check and update form one critical section: the tested loads happen with the mutex held and it is not
+				// released before the update
+				atomicOK, why := testsAtomicWithUpdate(p, T, ls, reg, in, recv)
+				r.Ob("M2", shortName(reg), "the tests guarding the update of "+fld+" and the update are one critical section", in.Pos(), atomicOK, why)
 				switch x := in.(type) {
 				case *ssa.MapUpdate:
 					okKey := strip(T.T(x.Key)) == keyT
@@ -534,4 +538,73 @@ func builtinDispatcherOf(p *Prog, ro *Roles) *ssa.Function {
 		}
 	}
 	return nil
+}
+
+// testsAtomicWithUpdate: the loads of <recv>.running and of the lookup in <recv>.interfaces that guard `update` are
+// executed in reg itself with the mutex held, and no Unlock lies on any path from them to the update.
+func testsAtomicWithUpdate(p *Prog, T *Terms, ls *LockSets, reg *ssa.Function, update ssa.Instruction, recv string) (bool, string) {
+	if ls == nil {
+		return false, "no lock-set information"
+	}
+	if len(ls.At[update]) == 0 {
+		return false, "the update is performed without the mutex"
+	}
+	var tests []ssa.Instruction
+	for _, b := range reg.Blocks {
+		for _, in := range b.Instrs {
+			switch x := in.(type) {
+			case *ssa.UnOp:
+				if strip(T.T(x)) == "param:"+recv+".running" {
+					tests = append(tests, in)
+				}
+			case *ssa.Lookup:
+				if strip(T.T(x.X)) == "param:"+recv+".interfaces" && x.CommaOk {
+					tests = append(tests, in)
+				}
+			}
+		}
+	}
+	seenRunning, seenLookup := false, false
+	for _, t := range tests {
+		if _, isL := t.(*ssa.Lookup); isL {
+			seenLookup = true
+		} else {
+			seenRunning = true
+		}
+		if len(ls.At[t]) == 0 {
+			return false, "a guarding test at " + p.Pos(t.Pos()) + " reads shared state without the mutex"
+		}
+		released, w := reachInstr(reg, t, func(i ssa.Instruction) bool { return i == update }, nil, nil)
+		if !released {
+			continue
+		}
+		// is there a path from the test to the update that passes an Unlock?
+		viaUnlock := false
+		for _, b := range reg.Blocks {
+			for _, in := range b.Instrs {
+				c, ok := in.(*ssa.Call)
+				if !ok {
+					continue
+				}
+				if _, d := lockOp(&c.Call); d < 0 {
+					r1, _ := reachInstr(reg, t, func(i ssa.Instruction) bool { return i == in }, nil, nil)
+					r2, _ := reachInstr(reg, in, func(i ssa.Instruction) bool { return i == update }, nil, nil)
+					if r1 && r2 {
+						viaUnlock = true
+					}
+				}
+			}
+		}
+		_ = w
+		if viaUnlock {
+			return false, "the mutex can be released between the test at " + p.Pos(t.Pos()) + " and the update: a serving call can start (or another registration happen) in between"
+		}
+	}
+	if !seenRunning {
+		return false, "the running flag is not read in the registration function itself under the mutex (a getter releases the lock before the update): check-then-act"
+	}
+	if !seenLookup {
+		return false, "the duplicate lookup is not performed in the registration function itself"
+	}
+	return true, "tests and update under one continuous hold of the mutex"
 }
